@@ -626,6 +626,10 @@ pub struct StackCase {
     depth: u32,
     placement: u8,
     long_headers: bool,
+    /// 0 = definite lengths; 1 = every element of the chain uses the indefinite form (x0 80), no end-of-contents
+    /// octets; 2 = indefinite with the matching 00 00 terminators. The enclosing frame is always definite.
+    #[serde(default)]
+    indef: u8,
 }
 
 /// nested constructed TLVs of the given depth, built without recursion
@@ -667,8 +671,22 @@ pub fn nested(depth: u32, tagbyte: u8, long_headers: bool) -> Vec<u8> {
 }
 
 pub fn stack_input(c: &StackCase) -> Vec<u8> {
-    let chain = nested(c.depth, if c.placement % 3 == 2 { 0xa0 } else { 0x30 }, c.long_headers);
-    match c.placement % 3 {
+    let tagbyte = if c.placement % 3 == 2 { 0xa0 } else { 0x30 };
+    let chain = if c.indef == 0 {
+        nested(c.depth, tagbyte, c.long_headers)
+    } else {
+        let mut v = Vec::with_capacity(c.depth as usize * 4);
+        for _ in 0..c.depth {
+            v.extend_from_slice(&[tagbyte, 0x80]);
+        }
+        if c.indef == 2 {
+            v.resize(v.len() + 2 * c.depth as usize, 0);
+        }
+        v
+    };
+    // an indefinite chain cannot be the frame itself (the frame length must be known): it becomes the protocolOp
+    let placement = if c.indef != 0 && c.placement % 3 == 0 { 1 } else { c.placement % 3 };
+    match placement {
         // the whole envelope is the chain
         0 => chain,
         // chain as the protocolOp
@@ -781,12 +799,21 @@ fn stack_run(ctx: &Ctx, known: &[KnownFinding]) -> LaneReport {
         if k == 1 {
             depth = 12_000;
         }
-        let c = StackCase { depth: depth.max(1), placement: (next() % 3) as u8, long_headers: long };
+        let indef = if k >= 2 && k % 3 == 2 { 1 + (next() % 2) as u8 } else { 0 };
+        if indef != 0 {
+            // 2 (or 4) octets per level
+            let maxi: f64 = 1_048_000.0 / if indef == 2 { 4.0 } else { 2.0 };
+            depth = if k == 2 { maxi as u32 } else { (maxi.ln() * frac).exp() as u32 };
+        }
+        let c = StackCase { depth: depth.max(1), placement: (next() % 3) as u8, long_headers: long, indef };
         crate::runner::eval_case(&mut rep, known, &c, |obs| {
             let v = probe(&c)?;
             obs.label(format!("verdict:{}", v));
             obs.label(format!("depth>=10^{}", (c.depth as f64).log10() as u32));
-            obs.nontrivial((c.depth, c.placement, c.long_headers));
+            if c.indef != 0 {
+                obs.label("indefinite-length-chain");
+            }
+            obs.nontrivial((c.depth, c.placement, c.long_headers, c.indef));
             Ok(())
         });
     }
@@ -804,6 +831,81 @@ fn fuzz_spec() -> crate::fuzzlane::FuzzSpec {
     crate::fuzzlane::FuzzSpec { target: "hostile_frame", oracle: judge_decoder, seeds: crate::fuzzlane::seeds_frames, max_len: 512, runs_per_worker: 2000000 }
 }
 
+
+// ------------------------------------------------------------------ lane: skeletons (exhaustive)
+
+/// element alphabet for envelope skeletons
+const SKEL: &[&[u8]] = &[
+    &[0x02, 0x01, 0x01],                                     // message id 1
+    &[0x02, 0x01, 0x00],                                     // message id 0
+    &[0x65, 0x07, 0x0a, 0x01, 0x00, 0x04, 0x00, 0x04, 0x00], // SearchResultDone, success
+    &[0x65, 0x00],                                           // operation without elements
+    &[0x61, 0x07, 0x0a, 0x01, 0x00, 0x04, 0x00, 0x04, 0x00], // BindResponse
+    &[0xa0, 0x09, 0x30, 0x07, 0x04, 0x05, b'1', b'.', b'2', b'.', b'3'], // controls: one control, oid only
+    &[0xa0, 0x00],                                           // empty controls
+    &[0x80, 0x00],                                           // primitive [0]
+    &[0x8a, 0x00],                                           // AD-style [10], primitive
+    &[0xaa, 0x00],                                           // [10], constructed
+    &[0x8a, 0x01, 0x41],                                     // [10] with content
+    &[0x04, 0x00],                                           // OCTET STRING
+    &[0x05, 0x00],                                           // NULL
+    &[0x30, 0x00],                                           // empty SEQUENCE
+];
+
+#[derive(Clone, Debug, Serialize, Deserialize)]
+pub struct SkelCase {
+    elems: Vec<u8>,
+}
+
+fn skel_bytes(c: &SkelCase) -> Vec<u8> {
+    let mut body = Vec::new();
+    for e in &c.elems {
+        body.extend_from_slice(SKEL[*e as usize % SKEL.len()]);
+    }
+    let mut out = vec![0x30, body.len() as u8];
+    out.extend_from_slice(&body);
+    out
+}
+
+fn skel_run(ctx: &Ctx, known: &[KnownFinding]) -> LaneReport {
+    let mut rep = LaneReport::new("skeletons");
+    rep.exhaustive = true;
+    let k = SKEL.len() as u64;
+    // every sequence of 0..=4 elements (thorough: 0..=5) over the alphabet
+    let maxlen = ctx.tier.pick(4u32, 5u32);
+    let mut idx: u64 = 0;
+    for len in 0..=maxlen {
+        for code in 0..k.pow(len) {
+            idx += 1;
+            if idx % ctx.workers as u64 != ctx.worker as u64 {
+                continue;
+            }
+            let mut elems = Vec::with_capacity(len as usize);
+            let mut c = code;
+            for _ in 0..len {
+                elems.push((c % k) as u8);
+                c /= k;
+            }
+            let case = SkelCase { elems };
+            crate::runner::eval_case(&mut rep, known, &case, |obs| {
+                let b = skel_bytes(&case);
+                judge_decoder(&b, obs)?;
+                obs.nontrivial(b);
+                Ok(())
+            });
+            if rep.failure.is_some() {
+                return rep;
+            }
+        }
+    }
+    rep
+}
+
+fn skel_replay(v: Value) -> Result<(), Fail> {
+    let c: SkelCase = serde_json::from_value(v).map_err(|e| Fail::new("replay-format", e.to_string()))?;
+    judge_decoder(&skel_bytes(&c), &mut Obs::default())
+}
+
 fn fuzz_run(ctx: &Ctx, known: &[crate::runner::KnownFinding]) -> crate::runner::LaneReport {
     crate::fuzzlane::run(&fuzz_spec(), ctx, known)
 }
@@ -816,7 +918,7 @@ pub fn property() -> Property {
     Property {
         id: "C11",
         level: "exploration",
-        rule: "lanes: decoder (a valid response message of any kind with exactly one mutation from the catalogue of DESIGN.md Appendix D - element deleted/duplicated/swapped, tag class/number/P-C changed, primitive emptied, over-long INTEGER, message id widened to 5-17 octets whose low octets still spell the original id, extra envelope element incl. the AD-style [10] trailer, any one TLV length falsified by +-delta (truncated/inflated inner lengths), byte set, truncation, outer tag changed, 12 malformed control lists - plus random bytes behind a plausible outer header and raw random bytes; oracle under catch_unwind: never a panic; if the octets announced by the outer length are all present the decoder must not answer 'need more'; a delivered frame consumes exactly the outer frame; input that is definitely not an envelope is never delivered); driver (the same delivered while 1-3 operations are pending on the simulated connection, incl. every response type under a live single or search id or under message id 0 (unsolicited notifications), with and without elements, alone or in the same read directly behind 1-3 well-formed frames; oracle: driver neither panics nor wedges (virtual watchdog), drive() returns, and for definite non-envelopes it returns an error that every pending operation observes); stack (child process, 2 MiB thread stack: frames with log-uniform 1..~250 000 nested constructed elements up to 1 MiB placed as envelope / protocolOp / controls; death by signal is the violation). Non-trivial: exactly one mutation away from a valid message, or random bytes starting with a plausible outer header; every driver and stack case. Distinct = hash of the bytes.",
+        rule: "lanes: decoder (a valid response message of any kind with exactly one mutation from the catalogue of DESIGN.md Appendix D - element deleted/duplicated/swapped, tag class/number/P-C changed, primitive emptied, over-long INTEGER, message id widened to 5-17 octets whose low octets still spell the original id, extra envelope element incl. the AD-style [10] trailer, any one TLV length falsified by +-delta (truncated/inflated inner lengths), byte set, truncation, outer tag changed, 12 malformed control lists - plus random bytes behind a plausible outer header and raw random bytes; oracle under catch_unwind: never a panic; if the octets announced by the outer length are all present the decoder must not answer 'need more'; a delivered frame consumes exactly the outer frame; input that is definitely not an envelope is never delivered); driver (the same delivered while 1-3 operations are pending on the simulated connection, incl. every response type under a live single or search id or under message id 0 (unsolicited notifications), with and without elements, alone or in the same read directly behind 1-3 well-formed frames; oracle: driver neither panics nor wedges (virtual watchdog), drive() returns, and for definite non-envelopes it returns an error that every pending operation observes); stack (child process, 2 MiB thread stack: frames with log-uniform 1..~250 000 nested constructed elements up to 1 MiB placed as envelope / protocolOp / controls; death by signal is the violation; a third of the chains use the indefinite length form inside a definite frame, with or without end-of-contents octets); skeletons (EXHAUSTIVE: every SEQUENCE of 0-4 (thorough 0-5) elements over a 14-element alphabet - valid id, id 0, operations with and without elements, valid / empty / primitive controls, AD-style [10] in three shapes, OCTET STRING, NULL, empty SEQUENCE - through the decoder oracle). Non-trivial: exactly one mutation away from a valid message, or random bytes starting with a plausible outer header; every driver and stack case. Distinct = hash of the bytes.",
         assumptions: &[
             "harness classification of 'definitely not an envelope': outer TLV not a universal constructed SEQUENCE, fewer than two elements, first element not a 1-4 octet non-negative universal INTEGER, or inner lengths that overrun the outer frame",
             "a panic in the caller's task while converting a well-enveloped but ill-formed result is outside the statement (driver and envelope) and only labelled",
@@ -825,6 +927,7 @@ pub fn property() -> Property {
             Box::new(PLane { name: "decoder", cases: |t| t.pick(8_000, 200_000), strat: dec_strat, check: check_dec }),
             Box::new(PLane { name: "driver", cases: |t| t.pick(800, 15_000), strat: drv_strat, check: check_drv }),
             Box::new(FnLane { name: "stack", run: stack_run, replay: stack_replay }),
+            Box::new(FnLane { name: "skeletons", run: skel_run, replay: skel_replay }),
             Box::new(crate::runner::FnLane { name: "fuzz", run: fuzz_run, replay: fuzz_replay }),
         ],
         workers: (8, 16),
